@@ -22,7 +22,14 @@ import os
 import sys
 from typing import Dict, List
 
-BUILTINS = {"len", "int", "str", "list", "bool", "all", "any", "enumerate"}
+BUILTINS = {"len", "int", "str", "list", "bool", "all", "any", "enumerate", "map", "filter", "sorted", "min", "max"}
+# T5: methods that exist on str -- a call `x.m(...)` is routed through __pyvc__.meth(x, "m") so that a NATIVE string carrying markers
+# (an f-string / concatenation of proxies) is never handed to a native str method (which would work on the marker payload)
+STR_METHODS = {"lower", "upper", "strip", "lstrip", "rstrip", "split", "rsplit", "replace", "find", "rfind", "index", "rindex", "startswith",
+               "endswith", "partition", "rpartition", "zfill", "ljust", "rjust", "center", "isdigit", "isalpha", "isalnum", "isdecimal",
+               "isnumeric", "isspace", "islower", "isupper", "istitle", "isidentifier", "isascii", "isprintable", "removeprefix",
+               "removesuffix", "count", "title", "capitalize", "casefold", "swapcase", "splitlines", "encode", "translate", "expandtabs",
+               "format", "format_map"}
 REWRITES: Dict[str, Dict[str, int]] = {}
 
 
@@ -122,6 +129,15 @@ class T(ast.NodeTransformer):
         if isinstance(f, ast.Attribute) and f.attr == "extend" and len(node.args) == 1 and not node.keywords:
             self.counts["T3"] += 1
             return ast.Call(func=self._rt("extend"), args=[f.value, node.args[0]], keywords=[])
+        if isinstance(f, ast.Attribute) and f.attr == "from_iterable" and len(node.args) == 1 and not node.keywords and \
+                ((isinstance(f.value, ast.Name) and f.value.id == "chain") or (isinstance(f.value, ast.Attribute) and f.value.attr == "chain")):
+            # itertools.chain.from_iterable(X): the concatenation of the chunks of X
+            self.counts["T2"] += 1
+            return ast.Call(func=self._rt("flat"), args=node.args, keywords=[])
+        if isinstance(f, ast.Attribute) and f.attr in STR_METHODS and not (isinstance(f.value, ast.Name) and f.value.id == "__pyvc__"):
+            self.counts["T5"] = self.counts.get("T5", 0) + 1
+            node.func = ast.Call(func=self._rt("meth"), args=[f.value, ast.Constant(value=f.attr)], keywords=[])
+            return node
         if isinstance(f, ast.Name) and f.id in BUILTINS:
             self.counts["T4"] += 1
             return ast.Call(func=self._rt("b_" + f.id), args=node.args, keywords=node.keywords)
@@ -136,6 +152,44 @@ class T(ast.NodeTransformer):
             if f.value.id == "copy" and f.attr == "deepcopy":
                 self.counts["T4"] += 1
                 return ast.Call(func=self._rt("deepcopy"), args=node.args, keywords=node.keywords)
+        return node
+
+    # ---- `re` / `regex` in every import form are the shims of vf.rt (guarded: nothing native ever sees text with symbolic parts)
+    _SHIMMED = ("re", "regex")
+
+    def visit_Import(self, node):
+        extra = []
+        for al in node.names:
+            if al.name in self._SHIMMED:
+                tgt = al.asname or al.name
+                extra.append(ast.copy_location(ast.Assign(targets=[ast.Name(id=tgt, ctx=ast.Store())], value=self._rt(al.name)), node))
+        return [node] + extra if extra else node
+
+    def visit_ImportFrom(self, node):
+        if node.module in self._SHIMMED and node.level == 0:
+            extra = []
+            for al in node.names:
+                if al.name == "*":
+                    continue
+                tgt = al.asname or al.name
+                extra.append(ast.copy_location(ast.Assign(targets=[ast.Name(id=tgt, ctx=ast.Store())],
+                                                          value=ast.Attribute(value=self._rt(node.module), attr=al.name, ctx=ast.Load())), node))
+            return [node] + extra if extra else node
+        return node
+
+    def visit_Compare(self, node):
+        self.generic_visit(node)
+        if len(node.ops) == 1 and isinstance(node.ops[0], (ast.In, ast.NotIn)):
+            # T5: `a in b` -> __pyvc__.contains(b, a)  (evaluation order a, b is kept by passing them through a tuple)
+            self.counts["T5"] = self.counts.get("T5", 0) + 1
+            call = ast.Call(func=self._rt("contains_ab"), args=[node.left, node.comparators[0]], keywords=[])
+            return ast.UnaryOp(op=ast.Not(), operand=call) if isinstance(node.ops[0], ast.NotIn) else call
+        if len(node.ops) == 1 and isinstance(node.ops[0], (ast.Is, ast.IsNot)) and isinstance(node.comparators[0], ast.Constant) \
+                and node.comparators[0].value in (True, False) and isinstance(node.comparators[0].value, bool):
+            # T5: `x is True` / `x is not False`: a symbolic truth value stands for a real bool
+            self.counts["T5"] = self.counts.get("T5", 0) + 1
+            call = ast.Call(func=self._rt("is_bool"), args=[node.left, node.comparators[0]], keywords=[])
+            return ast.UnaryOp(op=ast.Not(), operand=call) if isinstance(node.ops[0], ast.IsNot) else call
         return node
 
     def _general_loop(self, node):
@@ -165,9 +219,23 @@ class T(ast.NodeTransformer):
             if isinstance(n, ast.Name) and isinstance(n.ctx, (ast.Store, ast.Del)):
                 assigned.add(n.id)
         tnames = set(n.id for n in ast.walk(node.target) if isinstance(n, ast.Name))
-        # names assigned in the body (or the loop variable) must not be used elsewhere in the function
+        # names assigned in the body (or the loop variable) must not be used elsewhere in the function -- except (a) inside ANOTHER
+        # loop that binds the same name itself before reading it (its target, or leading plain assignments of its body), and
+        # (b) accumulators: plain local names that the body only updates with an augmented assignment (`n += 1`) and that are
+        # bound outside the loop; they become `nonlocal` in the body function and are havoc'd around a symbolic iteration
         outside = set()
+        outside_store = set()
         inloop = set(id(n) for n in ast.walk(node))
+
+        def rebinds(loop):
+            names = set(n.id for n in ast.walk(loop.target) if isinstance(n, ast.Name))
+            for st in loop.body:
+                if isinstance(st, ast.Assign) and len(st.targets) == 1 and isinstance(st.targets[0], ast.Name) \
+                        and not any(isinstance(x, ast.Name) and x.id == st.targets[0].id for x in ast.walk(st.value)):
+                    names.add(st.targets[0].id)
+                else:
+                    break
+            return names
 
         def collect(n, bound):
             if id(n) in inloop:
@@ -176,13 +244,59 @@ class T(ast.NodeTransformer):
                 b2 = bound | set(a.arg for a in n.args.args)
                 collect(n.body, b2)
                 return
+            if isinstance(n, (ast.FunctionDef, ast.AsyncFunctionDef)) and n is not fn:
+                # a nested function (e.g. the body function of an already rewritten loop): its parameters are its own names
+                b2 = bound | set(a.arg for a in n.args.posonlyargs + n.args.args + n.args.kwonlyargs)
+                for st in n.body:
+                    collect(st, b2)
+                return
+            if isinstance(n, (ast.ListComp, ast.SetComp, ast.DictComp, ast.GeneratorExp)):
+                # comprehension targets live in their own scope
+                b2 = bound | set(x.id for g in n.generators for x in ast.walk(g.target) if isinstance(x, ast.Name))
+                for ch in ast.iter_child_nodes(n):
+                    collect(ch, b2)
+                return
+            if isinstance(n, ast.For) and not any(id(x) in inloop for x in ast.walk(n) if isinstance(x, ast.stmt)):
+                collect(n.iter, bound)
+                b2 = bound | rebinds(n)
+                for st in n.body:
+                    collect(st, b2)
+                for st in n.orelse:
+                    collect(st, bound)
+                return
             if isinstance(n, ast.Name) and n.id not in bound:
                 outside.add(n.id)
+                if isinstance(n.ctx, ast.Store):
+                    outside_store.add(n.id)
             for ch in ast.iter_child_nodes(n):
                 collect(ch, bound)
         collect(fn, frozenset())
-        if (assigned | tnames) & outside:
-            return node
+        clash = (assigned | tnames) & outside
+        accs = []
+        if clash:
+            aug_only = set()
+            plain = set()
+            for n in ast.walk(ast.Module(body=node.body, type_ignores=[])):
+                if isinstance(n, ast.AugAssign) and isinstance(n.target, ast.Name):
+                    aug_only.add(n.target.id)
+                elif isinstance(n, ast.Name) and isinstance(n.ctx, (ast.Store, ast.Del)):
+                    plain.add(n.id)
+            aug_names = set(n.target.id for n in ast.walk(ast.Module(body=node.body, type_ignores=[]))
+                            if isinstance(n, ast.AugAssign) and isinstance(n.target, ast.Name))
+            stores_not_aug = set()
+            for n in ast.walk(ast.Module(body=node.body, type_ignores=[])):
+                if isinstance(n, (ast.Assign, ast.AnnAssign, ast.For, ast.With, ast.NamedExpr, ast.Delete)):
+                    tg = n.targets if isinstance(n, (ast.Assign, ast.Delete)) else [getattr(n, "target", None)] if not isinstance(n, ast.With) else \
+                        [it.optional_vars for it in n.items if it.optional_vars is not None]
+                    for t_ in tg:
+                        if t_ is not None:
+                            stores_not_aug |= set(x.id for x in ast.walk(t_) if isinstance(x, ast.Name))
+            params = set(a.arg for a in fn.args.args + fn.args.kwonlyargs + fn.args.posonlyargs)
+            ok = all(nm in aug_names and nm not in stores_not_aug and nm not in tnames and (nm in outside_store or nm in params) for nm in clash) \
+                and not any(isinstance(x, (ast.Global, ast.Nonlocal)) for x in ast.walk(fn))
+            if not ok:
+                return node
+            accs = sorted(clash)
         self.loop_no += 1
         name = f"__pyvc_body_{self.loop_no}"
         body = [self._fix_super(_Cont().visit(b)) for b in node.body]      # only now: the loop IS being rewritten
@@ -192,14 +306,54 @@ class T(ast.NodeTransformer):
             # tuple target: def body(__pyvc_t): (a, b) = __pyvc_t; BODY
             argname = "__pyvc_t"
             body = [ast.Assign(targets=[node.target], value=ast.Name(id=argname, ctx=ast.Load()))] + body
-        fdef = ast.FunctionDef(name=name, args=ast.arguments(posonlyargs=[], args=[ast.arg(arg=argname)], kwonlyargs=[],
-                                                             kw_defaults=[], defaults=[]), body=body, decorator_list=[], returns=None,
+        args = [ast.arg(arg=argname)]
+        defaults = []
+        if accs:
+            # def body(x, __pyvc_h=False): nonlocal a; if __pyvc_h: a = havoc("a", a); BODY
+            hv = [ast.Assign(targets=[ast.Name(id=a_, ctx=ast.Store())],
+                             value=ast.Call(func=self._rt("havoc"), args=[ast.Constant(value=f"{fn.name}:{a_}@k"), ast.Name(id=a_, ctx=ast.Load())], keywords=[]))
+                  for a_ in accs]
+            body = [ast.Nonlocal(names=list(accs)), ast.If(test=ast.Name(id="__pyvc_h", ctx=ast.Load()), body=hv, orelse=[])] + body
+            args.append(ast.arg(arg="__pyvc_h"))
+            defaults = [ast.Constant(value=False)]
+        fdef = ast.FunctionDef(name=name, args=ast.arguments(posonlyargs=[], args=args, kwonlyargs=[],
+                                                             kw_defaults=[], defaults=defaults), body=body, decorator_list=[], returns=None,
                                type_params=[])
-        call = ast.Expr(value=ast.Call(func=self._rt("for_each"),
-                                       args=[node.iter, ast.Name(id=name, ctx=ast.Load()),
-                                             ast.Constant(value=f"{self.modname}:{fn.name}:{self.loop_no}")], keywords=[]))
+        fe = ast.Call(func=self._rt("for_each"),
+                      args=[node.iter, ast.Name(id=name, ctx=ast.Load()),
+                            ast.Constant(value=f"{self.modname}:{fn.name}:{self.loop_no}")],
+                      keywords=[ast.keyword(arg="accs", value=ast.Constant(value=True))] if accs else [])
         self.counts["T1"] += 1
-        return [ast.copy_location(fdef, node), ast.copy_location(call, node)]
+        if not accs:
+            return [ast.copy_location(fdef, node), ast.copy_location(ast.Expr(value=fe), node)]
+        # if the loop ran over a symbolic sequence: the accumulators hold unknown values afterwards
+        hv2 = [ast.Assign(targets=[ast.Name(id=a_, ctx=ast.Store())],
+                          value=ast.Call(func=self._rt("havoc"), args=[ast.Constant(value=f"{fn.name}:{a_}@exit"), ast.Name(id=a_, ctx=ast.Load())], keywords=[]))
+               for a_ in accs]
+        after = ast.If(test=fe, body=hv2, orelse=[])
+        return [ast.copy_location(fdef, node), ast.copy_location(after, node)]
+
+    _LOG_LEVELS_INERT = ("debug",)
+
+    def _inert_stmt_expr(self, st):
+        """an expression that performs a statement which is no part of the loop's functional result: `assert C, M` or a
+        debug-level logging call; None when st is not of that kind"""
+        if isinstance(st, ast.Assert):
+            msg = st.msg if st.msg is not None else ast.Constant(value=None)
+            noargs = ast.arguments(posonlyargs=[], args=[], kwonlyargs=[], kw_defaults=[], defaults=[])
+            return ast.Call(func=self._rt("assert_"), args=[st.test, ast.Lambda(args=noargs, body=msg)], keywords=[])
+        if isinstance(st, ast.Expr) and isinstance(st.value, ast.Call) and isinstance(st.value.func, ast.Attribute) \
+                and st.value.func.attr in self._LOG_LEVELS_INERT and isinstance(st.value.func.value, ast.Name) \
+                and st.value.func.value.id in ("logger", "log", "LOGGER", "_logger"):
+            return st.value
+        return None
+
+    @staticmethod
+    def _then(effects, value):
+        """(e1, e2, ..., value)[-1]: the effects in order, then the value"""
+        if not effects:
+            return value
+        return ast.Subscript(value=ast.Tuple(elts=list(effects) + [value], ctx=ast.Load()), slice=ast.Constant(value=-1), ctx=ast.Load())
 
     def _search_loop(self, node):
         """T1 (search form):  for x in E: if C: return V      (C, V free of calls, no else)
@@ -209,15 +363,19 @@ class T(ast.NodeTransformer):
         if node.orelse or len(node.body) != 1 or not isinstance(node.body[0], ast.If):
             return node
         iff = node.body[0]
-        if iff.orelse or len(iff.body) != 1 or not isinstance(iff.body[0], ast.Return) or iff.body[0].value is None:
+        if iff.orelse or not iff.body or not isinstance(iff.body[-1], ast.Return) or iff.body[-1].value is None:
             return node
-        for part in (iff.test, iff.body[0].value):
+        # statements before the return: asserts / debug logging only (performed for the element that is returned)
+        effects = [self._inert_stmt_expr(st) for st in iff.body[:-1]]
+        if any(e is None for e in effects):
+            return node
+        for part in (iff.test, iff.body[-1].value):
             for n in ast.walk(part):
                 if isinstance(n, (ast.Call, ast.Await, ast.Yield, ast.YieldFrom, ast.NamedExpr, ast.Lambda)):
                     return node
         try:
             c = self._lam(node.target, iff.test)
-            v = self._lam(node.target, iff.body[0].value)
+            v = self._lam(node.target, self._then(effects, iff.body[-1].value))
         except NotImplementedError:
             return node
         self.counts["T1"] += 1
@@ -242,12 +400,25 @@ class T(ast.NodeTransformer):
         return self._general_loop(node)
 
     def _append_loop(self, node):
-        *pre, st = node.body
-        # leading statements must be plain single-name assignments (loop-local temporaries)
+        # body = pre* ; L.append/extend(V) ; post*      pre: plain single-name assignments (loop-local temporaries), guards
+        # `if C: raise E`, asserts, debug logging;  post: asserts / debug logging that do not mention L
+        idx = [i for i, st_ in enumerate(node.body) if isinstance(st_, ast.Expr) and isinstance(st_.value, ast.Call)
+               and isinstance(st_.value.func, ast.Attribute)
+               and (st_.value.func.attr in ("append", "extend")
+                    or (isinstance(st_.value.func.value, ast.Name) and st_.value.func.value.id == "__pyvc__" and st_.value.func.attr == "extend"))]
+        if len(idx) != 1:
+            return node
+        pre, st, post = node.body[:idx[0]], node.body[idx[0]], node.body[idx[0] + 1:]
         for a in pre:
-            if not (isinstance(a, ast.Assign) and len(a.targets) == 1 and isinstance(a.targets[0], ast.Name)):
-                return node
-        if not (isinstance(st, ast.Expr) and isinstance(st.value, ast.Call)):
+            if isinstance(a, ast.Assign) and len(a.targets) == 1 and isinstance(a.targets[0], ast.Name):
+                continue
+            if isinstance(a, ast.If) and not a.orelse and len(a.body) == 1 and isinstance(a.body[0], ast.Raise) and a.body[0].exc is not None:
+                continue
+            if self._inert_stmt_expr(a) is not None:
+                continue
+            return node
+        post_effects = [self._inert_stmt_expr(a) for a in post]
+        if any(e is None for e in post_effects):
             return node
         c = st.value
         if (isinstance(c.func, ast.Attribute) and isinstance(c.func.value, ast.Name) and c.func.value.id == "__pyvc__"
@@ -260,15 +431,39 @@ class T(ast.NodeTransformer):
         tgt = c.func.value
         if not isinstance(tgt, (ast.Name, ast.Attribute)):
             return node
-        # the appended value must not mention the target list itself
-        for n in ast.walk(c.args[0]):
-            if isinstance(n, ast.Name) and isinstance(tgt, ast.Name) and n.id == tgt.id:
-                return node
-        value = c.args[0]
+        # the appended value (and what is logged after the append) must not mention the target list itself
+        for part in [c.args[0]] + post_effects:
+            for n in ast.walk(part):
+                if isinstance(n, ast.Name) and isinstance(tgt, ast.Name) and n.id == tgt.id:
+                    return node
+                if isinstance(tgt, ast.Attribute) and isinstance(n, ast.Attribute) and n.attr == tgt.attr:
+                    return node
+        # temporaries must be loop-local: not used after the loop
+        tmp_names = set(a.targets[0].id for a in pre if isinstance(a, ast.Assign))
+        fn = self.func_nodes[-1] if self.func_nodes else None
+        if tmp_names and fn is not None:
+            inloop = set(id(n) for n in ast.walk(node) if isinstance(n, (ast.stmt, ast.Name)))
+            for n in ast.walk(fn):
+                if isinstance(n, ast.Name) and n.id in tmp_names and id(n) not in inloop and isinstance(n.ctx, ast.Load):
+                    # read outside the loop: only fine when every such read is in another loop that rebinds it first (checked
+                    # by the general form); keep the loop as it is and let the general form decide
+                    return node
+        value = self._then(post_effects, c.args[0]) if post_effects else c.args[0]
+        if post_effects:
+            # value first, then the effects, then the value is handed to for_app: (lambda v: (e1, ..., v)[-1])(V)
+            value = ast.Call(func=ast.Lambda(args=ast.arguments(posonlyargs=[], args=[ast.arg(arg="__pyvc_v")], kwonlyargs=[], kw_defaults=[], defaults=[]),
+                                             body=self._then(post_effects, ast.Name(id="__pyvc_v", ctx=ast.Load()))), args=[c.args[0]], keywords=[])
         try:
-            for a in reversed(pre):     # (lambda tmp: value)(expr)
-                inner = self._lam(a.targets[0], value)
-                value = ast.Call(func=inner, args=[a.value], keywords=[])
+            for a in reversed(pre):
+                if isinstance(a, ast.Assign):      # (lambda tmp: value)(expr)
+                    inner = self._lam(a.targets[0], value)
+                    value = ast.Call(func=inner, args=[a.value], keywords=[])
+                elif isinstance(a, ast.If):         # raise_(E) if C else value
+                    r = a.body[0]
+                    rargs = [r.exc] + ([r.cause] if r.cause is not None else [])
+                    value = ast.IfExp(test=a.test, body=ast.Call(func=self._rt("raise_"), args=rargs, keywords=[]), orelse=value)
+                else:
+                    value = self._then([self._inert_stmt_expr(a)], value)
             f = self._lam(node.target, value)
         except NotImplementedError:
             return node
@@ -315,11 +510,19 @@ def transform_source(src: str, modname: str, filename: str):
     return tree
 
 
+class InstrumentError(BaseException):
+    """the instrumenter itself failed on a module (not an outcome of the code under contract): an internal error of the checker"""
+
+
 class Loader(importlib.machinery.SourceFileLoader):
     def source_to_code(self, data, path, *, _optimize=-1):
         src = data.decode("utf-8") if isinstance(data, bytes) else data
-        tree = transform_source(src, self.name, path)
-        return compile(tree, path, "exec", dont_inherit=True, optimize=_optimize)
+        ast.parse(src, path)            # a tree that does not parse raises its own SyntaxError
+        try:
+            tree = transform_source(src, self.name, path)
+            return compile(tree, path, "exec", dont_inherit=True, optimize=_optimize)
+        except Exception as e:  # noqa
+            raise InstrumentError(f"instrumenting {path}: {type(e).__name__}: {e}")
 
     def get_code(self, fullname):
         # never use / write .pyc files: the text must be re-read from the tree on every run
